@@ -180,7 +180,35 @@ fn len_lies(fs: &[Fld]) -> Vec<Vec<u8>> {
 
 // ---------------------------------------------------------------- values
 
+/// A multihash of the given code with a digest of `n` bytes: the shapes on both sides of the
+/// admission boundary of a peer id (identity: digest <= 42; sha2-256: any digest the 64-byte
+/// multihash holds; any other code: never).
+pub fn mh_shape(code: u64, n: u64) -> Vec<u8> {
+    let mut b = uvi(code);
+    b.extend(uvi(n));
+    b.extend((0..n).map(|i| (i.wrapping_mul(7).wrapping_add(n)) as u8));
+    b
+}
+pub const MH_CODES: [u64; 5] = [0x00, 0x12, 0x13, 0x11, 0xb220];
+/// every (code, digest length 0..=66) shape
+pub fn mh_family(codes: &[u64]) -> Vec<Vec<u8>> {
+    let mut v = Vec::new();
+    for c in codes {
+        for n in 0..=66u64 {
+            v.push(mh_shape(*c, n));
+        }
+    }
+    v
+}
+/// does litep2p (and the multiaddr crate) take this shape as a peer id?
+pub fn mh_is_peer_id(code: u64, n: u64) -> bool {
+    (code == 0 && n <= 42) || (code == 0x12 && n <= 64)
+}
 pub fn peer_id(rng: &mut Rng) -> Vec<u8> {
+    if rng.chance(12) {
+        // a valid id of an unusual shape (any inlined length, any sha2-256 digest length)
+        return if rng.chance(50) { mh_shape(0, rng.below(43)) } else { mh_shape(0x12, rng.below(65)) };
+    }
     if rng.chance(50) {
         let mut b = vec![0x12, 0x20];
         b.extend(rand_bytes(rng, 32));
@@ -192,8 +220,11 @@ pub fn peer_id(rng: &mut Rng) -> Vec<u8> {
     }
 }
 fn bad_peer_id(rng: &mut Rng) -> Vec<u8> {
-    match rng.below(5) {
+    match rng.below(7) {
         0 => vec![],
+        // a well-formed multihash that is no peer id: identity with an over-long digest, another code
+        5 => mh_shape(0, rng.range(43, 66)),
+        6 => mh_shape(rng.pick(&[0x13u64, 0x11, 0xb220, 1]), rng.pick(&[0u64, 20, 32, 42, 43, 64])),
         1 => {
             let mut b = vec![0x13, 0x20];
             b.extend(rand_bytes(rng, 32));
@@ -429,7 +460,14 @@ fn string_val(rng: &mut Rng) -> Vec<u8> {
 // ---------------------------------------------------------------- schema trees
 
 fn kad_peer_tree(rng: &mut Rng) -> Vec<Fld> {
-    let id = if rng.chance(85) { peer_id(rng) } else { bad_peer_id(rng) };
+    let id = if rng.chance(6) {
+        // the node itself (never handed on) or the sender (a provider that announces itself)
+        if rng.chance(50) { local_fixed() } else { remote_fixed() }
+    } else if rng.chance(85) {
+        peer_id(rng)
+    } else {
+        bad_peer_id(rng)
+    };
     let mut v = vec![fb(1, &id)];
     for _ in 0..rng.below(4) {
         let a = addr_for(rng, &id);
@@ -898,6 +936,10 @@ fn c_frames(max: Option<u64>, s: &[u8]) -> Vec<u64> {
 /// the peer id of the node the worker runs the identify loop as (fixed key, see tasks.rs)
 fn local_fixed() -> Vec<u8> {
     super::tasks::local_peer().to_bytes()
+}
+/// the remote peer the worker's consumer stage attributes every substream to (see consume.rs)
+fn remote_fixed() -> Vec<u8> {
+    super::consume::remote_peer().to_bytes()
 }
 fn c_ident(peer: &[u8], local: &[u8], b: &[u8]) -> Vec<u64> {
     let mut c = vec![7];
@@ -1760,7 +1802,16 @@ pub fn random_case(rng: &mut Rng) -> Vec<u64> {
         }
         40..=41 => noise_random(rng),
         42..=43 => codec_random(rng),
-        44 => select_random(rng),
+        44 => {
+            if rng.chance(60) {
+                select_random(rng)
+            } else {
+                // the consumer of a negotiated protocol name: ProtocolSet lookups (C03 modes 5 / 6)
+                let mut c = vec![16];
+                c.extend(super::ext::x03::gen_lookup(rng));
+                c
+            }
+        }
         45 => c1(21, &yamux_stream(rng)),
         46..=49 => {
             let max = rng.pick(&[64u64, 1024, 70 * 1024]);
@@ -1989,7 +2040,173 @@ pub fn systematic(thorough: bool) -> Vec<Vec<u64>> {
             }
         }
     }
+    consumer_systematic(&mut out);
     out
+}
+
+/// Inputs for the CONSUMER STAGE: values on both sides of every decoder's admission boundary, placed
+/// wherever an event loop hands the decoded value on.
+fn consumer_systematic(out: &mut Vec<Vec<u64>>) {
+    let ip4: Vec<u8> = vec![4, 192, 0, 2, 1, 6, 0x76, 0x5d]; // /ip4/192.0.2.1/tcp/30301
+    let with_p2p = |a: &[u8], id: &[u8]| {
+        let mut b = a.to_vec();
+        b.extend(uvi(421));
+        b.extend(uvi(id.len() as u64));
+        b.extend(id);
+        b
+    };
+    let kpeer = |id: &[u8], addrs: &[Vec<u8>]| {
+        let mut v = vec![fb(1, id)];
+        for a in addrs {
+            v.push(fb(2, a));
+        }
+        fm(8, v)
+    };
+    // ---- peer ids: every (code, digest length) shape
+    for id in mh_family(&MH_CODES) {
+        out.push(c1(10, &id));
+        out.push(c1(11, &with_p2p(&ip4, &id)));
+    }
+    // over-long varints for code and length, a digest one longer / shorter than declared
+    for id in [
+        [vec![0x80, 0x00, 36], vec![1u8; 36]].concat(),
+        [vec![0x00, 0xa4, 0x00], vec![1u8; 36]].concat(),
+        [vec![0x00, 36], vec![1u8; 37]].concat(),
+        [vec![0x00, 36], vec![1u8; 35]].concat(),
+        [vec![0x92, 0x80, 0x00, 32], vec![1u8; 32]].concat(),
+    ] {
+        out.push(c1(10, &id));
+        out.push(c1(11, &with_p2p(&ip4, &id)));
+    }
+    // ---- Kademlia: each shape as a peer of a FIND_NODE / GET_VALUE / GET_PROVIDERS reply (address
+    // without and with /p2p), as the provider of ADD_PROVIDER, as the publisher of a record
+    for id in mh_family(&[0x00, 0x12, 0x13]) {
+        let addrs = vec![ip4.clone(), with_p2p(&[4, 192, 0, 2, 2, 6, 0x76, 0x5d], &id)];
+        out.push(c_kad(20, &ser(&[fv(1, 4), fb(2, b"target"), kpeer(&id, &addrs), fv(10, 10)])));
+        let rec = |publisher: &[u8]| fm(3, vec![fb(1, b"key"), fb(2, b"value"), fb(666, publisher), fv(777, 60)]);
+        out.push(c_kad(20, &ser(&[fb(2, b"key"), rec(&id), fv(10, 10)])));
+        out.push(c_kad(20, &ser(&[fv(1, 1), fb(2, b"key"), rec(&id), kpeer(&id, &addrs[..1]), fv(10, 10)])));
+        out.push(c_kad(20, &ser(&[fv(1, 3), fb(2, b"key"), kpeer(&id, &addrs[..1]), fm(9, vec![fb(1, &id), fb(2, &ip4)]), fv(10, 10)])));
+        out.push(c_kad(20, &ser(&[fv(1, 2), fb(2, b"key"), fm(9, vec![fb(1, &id), fb(2, &ip4)]), fv(10, 10)])));
+    }
+    // ---- Kademlia: the degenerate values a consumer may index, slice or divide by
+    let local = local_fixed();
+    let remote = remote_fixed();
+    let sha = mh_shape(0x12, 32);
+    let empty_dns = vec![53u8, 0, 6, 0, 1];
+    let long_dns = [vec![53u8], uvi(300), vec![b'a'; 300], vec![6, 0, 1]].concat();
+    let addr_sets: Vec<Vec<Vec<u8>>> = vec![
+        vec![],
+        vec![vec![]],
+        vec![ip4.clone()],
+        vec![ip4.clone(), ip4.clone()],
+        vec![with_p2p(&ip4, &sha)],
+        vec![with_p2p(&ip4, &remote)],
+        vec![vec![4, 0, 0, 0, 0, 6, 0, 0]],
+        vec![empty_dns.clone()],
+        vec![long_dns.clone()],
+        vec![[ip4.clone(), uvi(477)].concat()],
+        vec![[with_p2p(&ip4, &sha), uvi(290)].concat()],
+        vec![with_p2p(&[], &sha)],
+        vec![vec![6, 0, 1]],
+        vec![vec![4, 1, 2, 3]],
+    ];
+    for id in [&sha, &local, &remote] {
+        for addrs in &addr_sets {
+            for k in [1u64, 20] {
+                out.push(c_kad(k, &ser(&[fv(1, 4), kpeer(id, addrs), fv(10, 10)])));
+            }
+            out.push(c_kad(20, &ser(&[fv(1, 2), fb(2, b"key"), fm(9, [vec![fb(1, id)], addrs.iter().map(|a| fb(2, a)).collect()].concat())])));
+            out.push(c_kad(20, &ser(&[fv(1, 3), fm(8, [vec![fb(1, id)], addrs.iter().map(|a| fb(2, a)).collect()].concat())])));
+        }
+    }
+    for addrs in &addr_sets {
+        for a in addrs {
+            out.push(c1(11, a));
+        }
+    }
+    // records: empty key, empty value, key only in the record, record without key, ttl extremes
+    for (key, rkey, value, ttl) in [
+        (&b""[..], &b""[..], &b""[..], 0u64),
+        (b"", b"k", b"v", 0),
+        (b"k", b"", b"v", 1),
+        (b"k", b"other", b"", u32::MAX as u64),
+        (b"k", b"k", b"v", (1 << 32) + 1),
+    ] {
+        for ty in [0u64, 1] {
+            let mut r = vec![];
+            if !rkey.is_empty() {
+                r.push(fb(1, rkey));
+            }
+            r.push(fb(2, value));
+            if ttl != 0 {
+                r.push(fv(777, ttl));
+            }
+            let mut m = vec![];
+            if ty != 0 {
+                m.push(fv(1, ty));
+            }
+            if !key.is_empty() {
+                m.push(fb(2, key));
+            }
+            m.push(fm(3, r));
+            out.push(c_kad(20, &ser(&m)));
+        }
+    }
+    // message types with nothing else, every type with an empty and a 1-byte key
+    for ty in 0..=6u64 {
+        for key in [&b""[..], b"k", &[0u8; 32][..], &[0xffu8; 33][..]] {
+            let mut m = vec![];
+            if ty != 0 {
+                m.push(fv(1, ty));
+            }
+            if !key.is_empty() {
+                m.push(fb(2, key));
+            }
+            out.push(c_kad(20, &ser(&m)));
+            out.push(c_kad(1, &ser(&m)));
+        }
+    }
+    // more peers than the replication factor; the same peer many times
+    for n in [1usize, 2, 19, 20, 21, 40] {
+        let peers: Vec<Fld> = (0..n).map(|i| kpeer(&mh_shape(0x12, 32 + (i as u64 % 3)), &[ip4.clone()])).collect();
+        for k in [1u64, 20] {
+            out.push(c_kad(k, &ser(&[vec![fv(1, 4)], peers.clone()].concat())));
+        }
+        let same: Vec<Fld> = (0..n).map(|_| kpeer(&sha, &[ip4.clone()])).collect();
+        out.push(c_kad(20, &ser(&[vec![fv(1, 4)], same].concat())));
+    }
+    // ---- identify: each valid shape as the identified peer, its address with and without /p2p
+    let local = local_fixed();
+    for code in [0x00u64, 0x12] {
+        for n in 0..=64u64 {
+            if !mh_is_peer_id(code, n) {
+                continue;
+            }
+            let id = mh_shape(code, n);
+            let t = vec![fb(2, &with_p2p(&ip4, &id)), fb(2, &ip4), fb(4, &with_p2p(&ip4, &local)), fb(3, b"/x/1")];
+            out.push(c_ident(&id, &local, &ser(&t)));
+        }
+    }
+    for addrs in &addr_sets {
+        let mut t: Vec<Fld> = addrs.iter().map(|a| fb(2, a)).collect();
+        if let Some(a) = addrs.first() {
+            t.push(fb(4, a));
+        }
+        out.push(c_ident(&sha, &local, &ser(&t)));
+    }
+    // ---- keys: an Ed25519 key message in non-canonical encodings of every length around the
+    // inlining boundary (the peer id is derived from the re-encoded key)
+    let key = [0x3bu8, 0x6a, 0x27, 0xbc, 0xce, 0xb6, 0xa4, 0x2d, 0x62, 0xa3, 0xa8, 0xd0, 0x2a, 0x6f, 0x0d, 0x73, 0x65, 0x32, 0x15, 0x77, 0x1d, 0xe2, 0x43, 0xa6, 0x3a, 0xc0, 0x48, 0xa1, 0x8b, 0x59, 0xda, 0x29];
+    for pad in 0..=10usize {
+        let mut t = vec![fv(1, 1), fb(2, &key)];
+        if pad > 0 {
+            t.push(fb(15, &vec![0u8; pad - 1]));
+        }
+        let b = ser(&t);
+        out.push(c1(5, &b));
+        out.push(c1(6, &ser(&[fb(1, &b), fb(2, &[7u8; 64])])));
+    }
 }
 
 #[path = "gen_net.rs"]
